@@ -89,7 +89,10 @@ class World(object):
     def env(self):
         e = {}
         for k, v in (self.desc.get('env') or {}).items():
-            e[k] = subst(v, self.R).replace(':@', ':' + self.R)
+            if k == 'TRASH_VOLUMES':
+                e[k] = ':'.join(subst(x, self.R) for x in v.split(':'))
+            else:
+                e[k] = subst(v, self.R)
         return e
 
     def cwd(self):
